@@ -71,6 +71,10 @@ type Exec struct {
 	frameCache      *frameSpec
 	condLock        map[*Term]Value
 	protKeys        map[string]bool
+	heldAtEntry     map[string]bool
+	usedPureMethods map[string]bool
+	boxedTypes      map[string]types.Type
+	ifaceTexts      map[string][]string
 	callOrd         map[ssa.Instruction]string
 }
 
@@ -84,7 +88,7 @@ func NewExec(p *Program, fn *ssa.Function, fc *FuncContract) *Exec {
 		loopInfo: map[*ssa.Function]*loopAnalysis{}, siteOrd: map[string]int{}, siteName: map[ssa.Instruction]string{},
 		maxPaths: 20000, Inputs: map[string]*Term{}, ParamVals: map[string]Value{},
 		calledExterns: map[string]bool{}, calledContracts: map[string]bool{}, inlined: map[string]bool{},
-		unwound: map[string]bool{}, postSeen: map[string]int{}, condLock: map[*Term]Value{}}
+		unwound: map[string]bool{}, postSeen: map[string]int{}, condLock: map[*Term]Value{}, heldAtEntry: map[string]bool{}, usedPureMethods: map[string]bool{}, boxedTypes: map[string]types.Type{}}
 }
 
 func (x *Exec) noteSym(t *Term) { x.syms = append(x.syms, t) }
